@@ -54,7 +54,81 @@ class GetterInliner:
         for k, v in self.map.items():
             if k in s:
                 s = s.replace(k, v)
+        return subst_locals(s, n, self)
+
+
+_LOCAL_DEFS = {}
+
+
+def local_defs(func, inl=None):
+    """{name: canonical initialiser} of the locals of func that are assigned exactly once (their
+    declaration): hoisting a sub-expression into such a local must not change any verdict."""
+    key = (id(func), id(inl))
+    if key in _LOCAL_DEFS:
+        return _LOCAL_DEFS[key]
+    out = {}
+    body = body_of(func)
+    if body is None:
+        _LOCAL_DEFS[key] = out
+        return out
+    written = {}
+    for x in walk(body):
+        k = x.get('kind')
+        if k in ('BinaryOperator', 'CompoundAssignOperator') and x.get('opcode') in ASSIGN_OPS:
+            rd = ref_decl(x['inner'][0])
+            if rd:
+                written[rd.get('id')] = written.get(rd.get('id'), 0) + 1
+        elif k == 'UnaryOperator' and x.get('opcode') in ('++', '--', '&'):
+            rd = ref_decl(x['inner'][0])
+            if rd:
+                written[rd.get('id')] = written.get(rd.get('id'), 0) + 1
+    names = {}
+    for x in walk(body):
+        if x.get('kind') == 'VarDecl' and x.get('name'):
+            names[x['name']] = names.get(x['name'], 0) + 1
+    for x in walk(body):
+        if x.get('kind') == 'VarDecl' and x.get('name') and kids(x) and not written.get(x['id']) and names.get(x['name']) == 1:
+            t = dtype(x) or ''
+            if int_type_info(t) is None or (x.get('storageClass') == 'static' and not (qtype(x) or '').startswith('const')):
+                continue
+            if enclosing(x, ('ForStmt', 'WhileStmt', 'DoStmt', 'CXXForRangeStmt')) is not None and False:
+                continue
+            init = kids(x)[-1]
+            if any(c.get('kind') in ('CallExpr', 'CXXMemberCallExpr', 'CXXOperatorCallExpr') and (call_name(c) or '') not in ('min', 'max', 'size', 'length', 'remaining', 'where') and not (call_name(c) or '').startswith('operator ') for c in walk(init)):
+                continue     # only pure arithmetic over parameters / fields / observers
+            s = canon(init)
+            if inl is not None:
+                for k_, v_ in inl.map.items():
+                    if k_ in s:
+                        s = s.replace(k_, v_)
+            out[x['name']] = s
+    # resolve chains (a local defined from another local)
+    import re as _re
+    for _ in range(4):
+        changed = False
+        for nm, s in list(out.items()):
+            for o, so in out.items():
+                if o != nm and _re.search(r'(?<![\w.>])%s(?![\w(])' % _re.escape(o), s):
+                    out[nm] = _re.sub(r'(?<![\w.>])%s(?![\w(])' % _re.escape(o), so, s)
+                    changed = True
+        if not changed:
+            break
+    _LOCAL_DEFS[key] = out
+    return out
+
+
+def subst_locals(s, node, inl=None):
+    f = enclosing_function(node) if node is not None else None
+    if f is None:
         return s
+    defs = local_defs(f, inl)
+    if not defs:
+        return s
+    import re as _re
+    for nm, e in defs.items():
+        if nm in s:
+            s = _re.sub(r'(?<![\w.>])%s(?![\w(])' % _re.escape(nm), e, s)
+    return s
 
 
 def rels_at(site, inl, extra=()):
@@ -142,6 +216,24 @@ def split_const(A):
     return A, 0
 
 
+def _call_args_of(s):
+    body = s[s.index('(') + 1:-1]
+    out, depth, cur = [], 0, ''
+    for ch in body:
+        if ch in '([<':
+            depth += 1
+        elif ch in ')]>':
+            depth -= 1
+        if ch == ',' and depth == 0:
+            out.append(cur.strip())
+            cur = ''
+        else:
+            cur += ch
+    if cur.strip():
+        out.append(cur.strip())
+    return out
+
+
 def inbounds(rels, A, E, L):
     """(ok, reason).  A, E, L canonical strings."""
     base, k = split_const(A)
@@ -171,6 +263,11 @@ def inbounds(rels, A, E, L):
         e_ok = (E == diff) or holds(rels, E, ('<=', '<'), diff)
         if base == '0' and E == L:
             e_ok = True
+        if not e_ok and E.startswith('min(') and E.endswith(')'):
+            # E = min(x, y) <= each operand
+            for arg in _call_args_of(E):
+                if arg == diff or holds(rels, arg, ('<=', '<'), diff) or (base == '0' and arg == L):
+                    e_ok = True
     if a_ok and e_ok:
         return True, 'guarded by %s <= %s and %s <= %s' % (base, L, E if need is None else need, diff)
     sums = sum_form_guards(rels, base, E, L)
